@@ -134,7 +134,19 @@ class Check:
             # other encodings and odd S3 keys included - c09.sequences, impl.run_coll) merge to the same result
             import itertools
             from checks import c09
-            for docs_ in itertools.islice(c09.sequences(tier, rng), 60 if tier == 'quick' else 600):
+            from docs import metadata_replace as _mdr
+            ro_f = to_text(gens.make_ro(['A', 'B'], message_id=1))
+            ap_f = to_text(story_append(5, [story('F1')]))
+            ap2_f = to_text(story_append(6, [story('F2')]))
+            rd_f = to_text(ro_delete(90))
+            tw_a = to_text(_mdr(3, [E('roChannel', text='first twin')]))
+            tw_b = to_text(_mdr(3, [E('roChannel', text='second twin')]))
+            fixed = [[ro_f, tw_a, ap_f, ap2_f, tw_b, rd_f],          # two messages with one ID whose file names sort the other way round
+                     [ro_f, tw_b, ap_f, ap2_f, tw_a, rd_f],
+                     [ro_f, ap_f, ap2_f, ap_f, rd_f],                # a document supplied twice (one path listed twice, same spelling)
+                     [ro_f, ap_f, ap_f, rd_f],                       # ... and in another spelling
+                     [rd_f, ap2_f, ro_f]]                            # the roCreate supplied last
+            for docs_ in fixed + list(itertools.islice(c09.sequences(tier, rng), 60 if tier == 'quick' else 600)):
                 case = {'docs': docs_, 'inc': True, 'strict': True}
                 outs = {how: impl.run_coll(docs_, True, True, how=how, tmpdir=tmp) for how in ('strings', 'files', 's3')}
                 key = lambda io: (io.get('err0'), io.get('err'), io.get('tree'), tuple(io.get('warns') or ()))
